@@ -59,11 +59,16 @@ static void gen(uint64_t seed, const std::string &prop, Plan &plan) {
         if (c < 22) {
             int s = (int)r.below((uint64_t)nsrv);
             plan.ops.push_back(Op{0, "connect", {s, (int64_t)r.below(6)}, stp[(size_t)s], {}});   // n[1]: attribute-map variant
+            if (r.chance(0.35)) {   // ... and a blocking accept of it once it is pending
+                plan.ops.back().n[1] = (int64_t)r.below(2);   // (a connect that is meant to succeed)
+                plan.ops.push_back(Op{0, "sleep", {2}, "", {}});
+                plan.ops.push_back(Op{0, "baccept", {s, (int64_t)(r.chance(0.7) ? 0 : r.below(6))}, "", {}});
+            }
         } else if (c < 30) {
             static const char *tgt[] = {"refuse", "blackhole", "nxdomain", "dnsname", "unreach"};
             static const char *ttp[] = {"tcp", "tls", "btcp", "btls", "utls"};
             plan.ops.push_back(Op{0, "connect_odd", {(int64_t)r.below(5)}, std::string(ttp[r.below(5)]) + ":" + tgt[r.below(5)], {}});
-        } else if (c < 50) plan.ops.push_back(Op{0, "accept", {(int64_t)r.below((uint64_t)nsrv), (int64_t)r.below(6)}, "", {}});
+        } else if (c < 50) plan.ops.push_back(Op{0, r.chance(0.25) ? "baccept" : "accept", {(int64_t)r.below((uint64_t)nsrv), (int64_t)r.below(6)}, "", {}});   // baccept: in blocking mode, when a connection is pending
         else if (c < 65) plan.ops.push_back(Op{0, "pump", {(int64_t)r.below(3)}, "", {}});
         else if (c < 78) plan.ops.push_back(Op{0, "send", {(int64_t)r.below(8), (int64_t)(1 + r.below(r.chance(0.8) ? 300 : 60000))}, "", {}});
         else if (c < 86) plan.ops.push_back(Op{0, "close", {(int64_t)r.below(12)}, "", {}});
@@ -202,18 +207,32 @@ static void program(const Plan *pl) {
             if (m) xcm_attr_map_destroy(m);
             if (c->s) LX->conns.push_back(c);
             else G->count("probe.connect_failed");
-        } else if (op.kind == "accept") {
+        } else if (op.kind == "accept" || op.kind == "baccept") {
             if (!LX->servers.empty()) {
                 XSock *srv = LX->servers[(size_t)op.arg(0) % LX->servers.size()];
+                // a blocking accept (its internal wait can be interrupted: EINTR variants) is only possible in this single-threaded
+                // program when a connection is already pending and no handshake has to be driven from the other end
+                bool blocking = false;
+                if (op.kind == "baccept" && !srv->closed) {
+                    std::string btp = LX->srv_addr[(size_t)op.arg(0) % LX->servers.size()];
+                    btp = btp.substr(0, btp.find(':'));
+                    bool pending = false;
+                    for (auto &kf : srv->kfiles) {
+                        if (auto t = std::dynamic_pointer_cast<TcpSock>(kf)) if (!t->acceptq.empty()) pending = true;
+                        if (auto u = std::dynamic_pointer_cast<UnixSock>(kf)) if (!u->acceptq.empty()) pending = true;
+                    }
+                    if (pending && (btp == "ux" || btp == "uxf" || btp == "tcp" || btp == "btcp") && x_set_blocking(srv, true) == 0) { blocking = true; G->count("probe.blocking_accept"); }
+                }
                 if (!srv->closed) {
                     std::string tp = LX->srv_addr[(size_t)op.arg(0) % LX->servers.size()];
                     tp = tp.substr(0, tp.find(':'));
                     struct xcm_attr_map *m = attr_variant((int)op.arg(1), true, tp);
                     XSock *c = x_accept(srv, m, strf("a%zu", LX->conns.size()));
                     if (m) xcm_attr_map_destroy(m);
-                    if (c) LX->conns.push_back(c);
+                    if (c) { if (blocking) x_set_blocking(c, false); LX->conns.push_back(c); }
                     else G->count("probe.accept_failed");
                 }
+                if (blocking && !srv->closed) x_set_blocking(srv, false);
             }
         } else if (op.kind == "flood") {
             // C05: non-blocking connects against a full listen queue report EAGAIN (or stay in progress), they never wait
@@ -298,7 +317,7 @@ static void finalize(const Plan &plan, EndReason r) {
     if (r == EndReason::QUIESCENT) G->violation("C08.stuck", "the lifecycle program (non-blocking sockets only) stopped making progress: %s", G->tasks[0]->parked_why.c_str());
     else if (r == EndReason::BUDGET) G->violation("C08.spin", "step budget exhausted in the lifecycle program (%llu steps)", (unsigned long long)G->steps);
     g_run_nontrivial = plan.P("variant") == 0 || G->stat.count("fault.fork_cleanup") || G->stat.count("fault.res.socket") || G->stat.count("fault.res.accept4") || G->stat.count("fault.res.epoll_create1") ||
-                       G->stat.count("fault.res.eventfd") || G->stat.count("fault.res.timerfd_create") || G->stat.count("fault.res.connect") || G->stat.count("fault.res.bind") || G->stat.count("fault.res.listen") || G->stat.count("fault.res.fopen");
+                       G->stat.count("fault.res.eventfd") || G->stat.count("fault.res.timerfd_create") || G->stat.count("fault.res.connect") || G->stat.count("fault.res.bind") || G->stat.count("fault.res.listen") || G->stat.count("fault.res.fopen") || G->stat.count("fault.eintr.poll");
 }
 
 static void variants(const Plan &base, const Result &ref, std::vector<Plan> &out, size_t cap) {
@@ -323,6 +342,14 @@ static void variants(const Plan &base, const Result &ref, std::vector<Plan> &out
                     all.push_back(v);
                     singles.emplace_back(c.nth_in_op, er);
                 }
+    }
+    // an interrupted wait inside a blocking call (EINTR) is one more internal step at which an attempt can fail
+    for (auto &c : ref.calls) {
+        if (c.call != "poll" || c.op_index < 0 || c.op_index >= (int)base.ops.size()) continue;
+        Plan v = base;
+        v.sp["variant"] = strf("eintr:op%d:poll%d", c.op_index, c.nth_in_op);
+        v.ops[(size_t)c.op_index].faults.push_back(Fault{"eintr", "poll", c.nth_in_op, 0, 0});
+        all.push_back(v);
     }
     for (size_t k = 0; k < base.ops.size(); k++) {
         Plan v = base;
